@@ -11,7 +11,8 @@
     what one side writes the other reads ........ discovery_roundtrip, frame_roundtrip (induction over message sequences)
     authenticated (identified remote key) ....... discovery_authenticated
     any bit flipped is detected before delivery . discovery_tamper_detected, discovery_hash_tamper_detected,
-                                                  frame_tamper_detected_partial, frame_truncation_rejected
+                                                  frame_tamper_detected_partial, frame_single_byte_tamper_detected,
+                                                  frame_truncation_rejected
     never crashes ............................... discovery_total (every byte string), discovery_unguarded_panics_witness
                                                   (the guard is necessary), handshake_total_and_bounded, handler_size_limit
     never allocates beyond the limits ........... frame_alloc_bound, frame_size_accounting, handshake_total_and_bounded,
@@ -349,6 +350,102 @@ example :
   frame_tamper_detected_partial P0 P0_wf false d0 3 [3, 0xAA, 0xBB] [] (hdr0.set 0 0xEE) _ frame0 _
     (by decide) (by decide) (by decide) (by decide) (by decide) (by decide) hdr0 frame0 rfl rfl
     (Or.inl (by decide)) (fun _ => rfl) (fun _ => rfl) (fun _ => by decide) (fun h => absurd rfl h)
+
+/-- every single altered byte of a written frame is detected (corollary of `frame_tamper_detected_partial`):
+    for each position `i` of header ‖ header-MAC ‖ frame ‖ frame-MAC and each new value `v` for that byte, `ReadMsg`
+    answers with a MAC error, provided no other 16-byte header / no other frame of the same length has the MAC tag of the
+    written one (second-preimage freedom of the truncated Keccak MAC at the written header and frame). -/
+theorem frame_single_byte_tamper_detected (P : Prims) (hw : Wf P) (snappy : Bool) (d : Dir) (fsize : Nat) (body rest : Bytes)
+    (hbody : body.length = fsize) (hf : fsize < 2 ^ 24)
+    (hdr frame t1 t3 : Bytes) (hhdr : hdr = xorKs P d.pos (hdrPlain fsize)) (hframe : frame = xorKs P (d.pos + 16) (body ++ padOf fsize))
+    (ht1 : t1 = tag P (macStep P d.mac hdr))
+    (ht3 : t3 = tag P (macStep P (macStep P d.mac hdr ++ frame) (P.H (macStep P d.mac hdr ++ frame))))
+    (i : Nat) (v : UInt8) (hi : i < (hdr ++ t1 ++ frame ++ t3).length) (hv : (hdr ++ t1 ++ frame ++ t3)[i]? ≠ some v)
+    (hcfH : ∀ a, a.length = 16 → macStep P d.mac a ≠ macStep P d.mac hdr → tag P (macStep P d.mac a) ≠ tag P (macStep P d.mac hdr))
+    (hcfF : ∀ c, c.length = frame.length →
+        macStep P (macStep P d.mac hdr ++ c) (P.H (macStep P d.mac hdr ++ c)) ≠ macStep P (macStep P d.mac hdr ++ frame) (P.H (macStep P d.mac hdr ++ frame)) →
+        tag P (macStep P (macStep P d.mac hdr ++ c) (P.H (macStep P d.mac hdr ++ c)))
+          ≠ tag P (macStep P (macStep P d.mac hdr ++ frame) (P.H (macStep P d.mac hdr ++ frame)))) :
+    readMsg P snappy d ((hdr ++ t1 ++ frame ++ t3).set i v ++ rest) = .err .badHeaderMAC ∨
+    readMsg P snappy d ((hdr ++ t1 ++ frame ++ t3).set i v ++ rest) = .err .badFrameMAC := by
+  have hhl : hdr.length = 16 := by rw [hhdr, xorKs_length, hdrPlain_length]
+  have hfl : frame.length = rsizeOf fsize := by rw [hframe, xorKs_length, List.length_append, hbody, padOf_length]
+  have h1l : t1.length = 16 := by rw [ht1]; exact tag_length P hw _
+  have h3l : t3.length = 16 := by rw [ht3]; exact tag_length P hw _
+  simp only [List.length_append, hhl, h1l, hfl, h3l] at hi
+  by_cases c1 : i < 16
+  · have hs : (hdr ++ t1 ++ frame ++ t3).set i v = hdr.set i v ++ t1 ++ frame ++ t3 := by
+      rw [List.set_append_left _ _ (by simp [hhl, h1l, hfl]; omega), List.set_append_left _ _ (by simp [hhl, h1l]; omega),
+        List.set_append_left _ _ (by omega)]
+    have hv' : hdr[i]? ≠ some v := by
+      intro e; apply hv
+      rw [List.append_assoc, List.append_assoc, List.getElem?_append_left (by omega)]; exact e
+    have hne := set_ne_self hdr i v (by omega) hv'
+    rw [hs]
+    exact frame_tamper_detected_partial P hw snappy d fsize body rest (hdr.set i v) t1 frame t3 (by simp [hhl]) h1l hfl h3l hbody hf
+      hdr frame hhdr hframe (Or.inl hne) (fun _ => ht1) (fun _ => ht3) (hcfH _ (by simp [hhl])) (fun h => absurd rfl h)
+  · by_cases c2 : i < 32
+    · have hs : (hdr ++ t1 ++ frame ++ t3).set i v = hdr ++ t1.set (i - 16) v ++ frame ++ t3 := by
+        rw [List.set_append_left _ _ (by simp [hhl, h1l, hfl]; omega), List.set_append_left _ _ (by simp [hhl, h1l]; omega),
+          List.set_append_right _ _ (by omega), hhl]
+      have hv' : t1[i - 16]? ≠ some v := by
+        intro e; apply hv
+        rw [List.append_assoc, List.append_assoc, List.getElem?_append_right (by omega), hhl,
+          List.getElem?_append_left (by omega)]; exact e
+      have hne := set_ne_self t1 (i - 16) v (by omega) hv'
+      rw [hs]
+      exact frame_tamper_detected_partial P hw snappy d fsize body rest hdr (t1.set (i - 16) v) frame t3 hhl (by simp [h1l]) hfl h3l hbody hf
+        hdr frame hhdr hframe (Or.inr (Or.inl (by rw [← ht1]; exact hne))) (fun h => absurd rfl h) (fun _ => ht3)
+        (fun h => absurd rfl h) (fun h => absurd rfl h)
+    · by_cases c3 : i < 32 + rsizeOf fsize
+      · have hs : (hdr ++ t1 ++ frame ++ t3).set i v = hdr ++ t1 ++ frame.set (i - 32) v ++ t3 := by
+          rw [List.set_append_left _ _ (by simp [hhl, h1l, hfl]; omega), List.set_append_right _ _ (by simp [hhl, h1l]; omega)]
+          simp [hhl, h1l]
+        have hv' : frame[i - 32]? ≠ some v := by
+          intro e; apply hv
+          rw [List.getElem?_append_left (by simp [hhl, h1l, hfl]; omega), List.getElem?_append_right (by simp [hhl, h1l]; omega)]
+          simp only [List.length_append, hhl, h1l]; exact e
+        have hne := set_ne_self frame (i - 32) v (by omega) hv'
+        rw [hs]
+        exact frame_tamper_detected_partial P hw snappy d fsize body rest hdr t1 (frame.set (i - 32) v) t3 hhl h1l (by simp [hfl]) h3l hbody hf
+          hdr frame hhdr hframe (Or.inr (Or.inr (Or.inl hne))) (fun h => absurd rfl h) (fun _ => ht3)
+          (fun h => absurd rfl h) (hcfF _ (by simp))
+      · have hs : (hdr ++ t1 ++ frame ++ t3).set i v = hdr ++ t1 ++ frame ++ t3.set (i - (32 + rsizeOf fsize)) v := by
+          rw [List.set_append_right _ _ (by simp [hhl, h1l, hfl]; omega)]
+          simp only [List.length_append, hhl, h1l, hfl]
+        have hv' : t3[i - (32 + rsizeOf fsize)]? ≠ some v := by
+          intro e; apply hv
+          rw [List.getElem?_append_right (by simp [hhl, h1l, hfl]; omega)]
+          simp only [List.length_append, hhl, h1l, hfl]; exact e
+        have hne := set_ne_self t3 (i - (32 + rsizeOf fsize)) v (by omega) hv'
+        rw [hs]
+        exact frame_tamper_detected_partial P hw snappy d fsize body rest hdr t1 frame (t3.set (i - (32 + rsizeOf fsize)) v) hhl h1l hfl (by simp [h3l]) hbody hf
+          hdr frame hhdr hframe (Or.inr (Or.inr (Or.inr (by rw [← ht3]; exact hne)))) (fun h => absurd rfl h) (fun h => absurd rfl h)
+          (fun h => absurd rfl h) (fun h => absurd rfl h)
+
+/-- non-vacuity: under `P1` (MAC tag injective on 16-byte headers and 16-byte frames) every changed byte of the
+    64-byte frame of a 2-byte payload is caught, whatever position and value. -/
+example (i : Nat) (v : UInt8) (w : Bytes)
+    (hwd : w = xorKs P1 0 (hdrPlain 3) ++ tag P1 (macStep P1 [] (xorKs P1 0 (hdrPlain 3))) ++ xorKs P1 (0 + 16) ([3, 0xAA, 0xBB] ++ padOf 3) ++
+      tag P1 (macStep P1 (macStep P1 [] (xorKs P1 0 (hdrPlain 3)) ++ xorKs P1 (0 + 16) ([3, 0xAA, 0xBB] ++ padOf 3))
+        (P1.H (macStep P1 [] (xorKs P1 0 (hdrPlain 3)) ++ xorKs P1 (0 + 16) ([3, 0xAA, 0xBB] ++ padOf 3)))))
+    (hi : i < w.length) (hv : w[i]? ≠ some v) :
+    readMsg P1 false { mac := [], pos := 0 } (w.set i v ++ []) = .err .badHeaderMAC ∨
+    readMsg P1 false { mac := [], pos := 0 } (w.set i v ++ []) = .err .badFrameMAC := by
+  subst hwd
+  have hhl : (xorKs P1 0 (hdrPlain 3)).length = 16 := by rw [xorKs_length, hdrPlain_length]
+  have hml : (macStep P1 [] (xorKs P1 0 (hdrPlain 3))).length = 16 := by
+    rw [P1_macStep _ _ (by omega)]; simp [hhl]
+  refine frame_single_byte_tamper_detected P1 P1_wf false { mac := [], pos := 0 } 3 [3, 0xAA, 0xBB] [] rfl (by decide)
+    _ _ _ _ rfl rfl rfl rfl i v hi hv ?_ ?_
+  · intro a ha hne htag
+    rw [P1_tag_hdr a ha, P1_tag_hdr _ hhl] at htag
+    exact hne (by rw [htag])
+  · intro c hc hne htag
+    have hcl : c.length = 16 := by rw [hc, xorKs_length]; rfl
+    have hfl : (xorKs P1 (0 + 16) ([3, 0xAA, 0xBB] ++ padOf 3)).length = 16 := by rw [xorKs_length]; rfl
+    rw [P1_tag_frame _ c hml hcl, P1_tag_frame _ _ hml hfl] at htag
+    exact hne (by rw [htag])
 
 /-- `frame_alloc_bound`: whatever bytes arrive and whatever the session keys are, every buffer `ReadMsg` allocates
     (header, frame buffer rounded up to 16, the compressed payload copy, snappy's output) is at most 2^24 + 15 bytes;
